@@ -46,7 +46,8 @@ macro = st.tuples(st.sampled_from(['newcommand', 'newcommand', 'def']), st.sampl
 
 
 def delem(child):
-    arg = st.one_of(st.tuples(st.just('braced'), child), st.tuples(st.just('braced'), child), st.tuples(st.just('single'), st.sampled_from('xyz')))
+    arg = st.one_of(st.tuples(st.just('braced'), child), st.tuples(st.just('braced'), child), st.tuples(st.just('single'), st.sampled_from('xyz')),
+                    st.tuples(st.just('cw'), st.sampled_from(['LaTeX', 'TeX', 'ss']), st.booleans()))
     return st.one_of(
         st.just(('w',)), st.just(('w',)),
         st.tuples(st.just('use'), st.integers(0, 8), st.booleans(), st.lists(arg, min_size=0, max_size=3), child),
@@ -92,7 +93,7 @@ def resolve_body(raw, n, idx, c):
         elif e[0] == 'pardigit':
             k = e[1] % n + 1
             out.append(('par', k))
-            out.append(('lit', e[2]))
+            out.append(('lit', e[2], 'glued'))
             txt.append('#%d%s' % (k, e[2]))
         elif e[0] == 'par':
             k = e[1] % n + 1
@@ -165,6 +166,13 @@ def make_macro(name, kind, n, dflt, raw, idx, macs, c):
             parts.append(t)
     m = Mac(name, kind, n, default, body, None)
     m.body_src = ' '.join(parts)
+    # a blank directly behind a control word is no token (TeX): no claim for it
+    m.cw_end = set()
+    k = 0
+    for (e, t), ptxt in zip(aligned, parts):
+        k += 2 if (e[0] == 'par' and ptxt != '#%d' % e[1]) else 1
+        if re.search(r'\\[a-zA-Z@]+$', ptxt):
+            m.cw_end.add(k - 1)
     return m
 
 
@@ -231,7 +239,14 @@ def render_nodes(c, fl, macs, depth=0, in_arg=False):
                         c.src += '}]'
                     continue
                 a = e[3][kk % 3] if kk % 3 < len(e[3]) and kk < 4 else ('braced', [('w',)])
-                if a[0] == 'single' and defined:
+                if a[0] == 'cw' and defined:
+                    # exactly one control word as argument, braced or not
+                    c.src += '{' if a[2] else ''
+                    o = len(c.src)
+                    c.src += '\\' + a[1]
+                    args.append(('cw', {'LaTeX': 'LaTeX', 'TeX': 'TeX', 'ss': '\u00df'}[a[1]], o, len(c.src)))
+                    c.src += '}' if a[2] else ''
+                elif a[0] == 'single' and defined:
                     c.src += ' '
                     args.append(('single', a[1], len(c.src)))
                     c.src += a[1]
@@ -280,6 +295,8 @@ def expand_nodes(x, nodes, span=None):
                 for a in args:
                     if a[0] == 'nodes':
                         expand_nodes(x, a[1], span)
+                    elif a[0] == 'cw':
+                        x.cur().append(('g', a[1], (a[2], a[3])))
                     else:
                         x.cur().append(('w', a[1], a[2]))
                 continue
@@ -298,15 +315,19 @@ def expand_nodes(x, nodes, span=None):
                 if ai < len(args):
                     a = args[ai]
                     ai += 1
-                    binding[kk] = ('nodes', a[1], span) if a[0] == 'nodes' else ('single', a[1], a[2])
+                    binding[kk] = ('nodes', a[1], span) if a[0] == 'nodes' else ((a[0],) + tuple(a[1:]))
+                    if a[0] == 'cw':
+                        x.feat.add('control-word-argument')
                     if a[0] == 'nodes' and any(n_[0] == 'use' for n_ in a[1]):
                         x.feat.add('call-in-argument')
-            expand_body(x, m.body, binding, sp)
+            expand_body(x, m.body, binding, sp, m.cw_end)
 
 
-def expand_body(x, body, binding, span):
+def expand_body(x, body, binding, span, cw_end=()):
     seen = {}
-    for e in body:
+    for n_, e in enumerate(body):
+        if n_ and not (e[0] == 'lit' and len(e) > 2) and (n_ - 1) not in cw_end:
+            x.cur().append(('sp',))     # the elements of a body are separated by one blank
         if e[0] == 'lit':
             x.cur().append(('g', e[1], span))
         elif e[0] == 'par':
@@ -328,7 +349,7 @@ def expand_body(x, body, binding, span):
                         b2[1] = ('default', m.default)
                     continue
                 b2[kk] = ('body', args[kk - 1], binding)
-            expand_body(x, m.body, b2, span)
+            expand_body(x, m.body, b2, span, m.cw_end)
         elif e[0] == 'math':
             x.nmath += 1
             x.cur().append(('g', INLINE_PH[x.nmath % 6], span))
@@ -348,6 +369,8 @@ def expand_value(x, val, span):
         expand_nodes(x, val[1], val[2])
     elif val[0] == 'single':
         x.cur().append(('w', val[1], val[2]))
+    elif val[0] == 'cw':
+        x.cur().append(('g', val[1], (val[2], val[3])))
     elif val[0] == 'default':
         x.cur().append(('g', val[1], span))
     elif val[0] == 'body':
@@ -360,8 +383,19 @@ def blank(c):
 
 def compare(x, plain, pos, shift, case, src):
     exp = []
+    gaps = set()        # indices i: a body blank stands between expected characters i-1 and i (same flow)
     for f in [x.main] + x.done:
+        pending = False
+        first = True
         for a in f:
+            if a[0] == 'sp':
+                pending = not first
+                continue
+            if pending and a[1]:
+                gaps.add(len(exp))
+            if a[1]:
+                pending = False
+                first = False
             if a[0] == 'w':
                 for i, ch in enumerate(a[1]):
                     exp.append((ch, a[2] + i + 1, a[2] + i + 1))
@@ -369,11 +403,15 @@ def compare(x, plain, pos, shift, case, src):
                 for ch in a[1]:
                     exp.append((ch, a[2][0] + 1, a[2][1]))
     act = [(ch, p) for ch, p in zip(plain, pos) if not blank(ch)]
+    idx = [i for i, ch in enumerate(plain) if not blank(ch)]
     et = ''.join(e[0] for e in exp)
     at = ''.join(a[0] for a in act)
     if et != at:
         k = next((i for i in range(min(len(et), len(at))) if et[i] != at[i]), min(len(et), len(at)))
         raise Violation('expansion-differs', case, {'expected': et, 'actual': at, 'expected_there': et[k:k + 30], 'actual_there': at[k:k + 30], 'plain': plain})
+    for g in gaps:
+        if 0 < g < len(idx) and idx[g] == idx[g - 1] + 1:
+            raise Violation('blank-of-macro-body-lost', case, {'between': [et[max(0, g - 8):g], et[g:g + 8]], 'plain': plain})
     for e, a in zip(exp, act):
         if not (e[1] <= a[1] - shift <= e[2]):
             kind = 'argument-text-position' if e[1] == e[2] else 'body-text-outside-call'
